@@ -59,6 +59,29 @@ let dump_spec ((n, k) : acplx) =
     (int_of_z (num_connected_components g)) (join_sorted lc)
     (if spec_closed k then "" else " NOT-CLOSED")
 
+(* link(alpha): transcription (build_link) and abstract link {t : t disjoint from alpha, t u alpha in K} *)
+let subsets_of (l : int list) =
+  let n = List.length l in
+  List.filter (fun v -> v <> [])
+    (List.init (1 lsl n) (fun m -> List.filteri (fun i _ -> m land (1 lsl i) <> 0) l))
+let dump_link_model (c : cplx) (alpha : z list) =
+  let l = build_link c alpha in
+  let lv = ints (act l) in
+  let v = List.map (fun x -> [x]) lv in
+  let e = List.map (fun (a, b) -> [int_of_z a; int_of_z b]) (edg l) in
+  let b = List.map ints (blk l) in
+  let r = List.filter (fun s -> link_contains l (zs s)) (subsets_of (List.sort compare lv)) in
+  Printf.sprintf "LK nv=%d ne=%d nb=%d V=%s E=%s B=%s R=%s" (List.length v) (List.length e) (List.length b)
+    (join_sorted v) (join_sorted e) (join_sorted b) (join_sorted r)
+let dump_link_spec ((_, k) : acplx) (alpha : z list) =
+  let lk = spec_link k alpha in
+  let ki = List.map ints lk in
+  let v = List.filter (fun s -> List.length s = 1) ki in
+  let e = List.filter (fun s -> List.length s = 2) ki in
+  let b = List.map ints (spec_blockers lk) in
+  Printf.sprintf "LK nv=%d ne=%d nb=%d V=%s E=%s B=%s R=%s" (List.length v) (List.length e) (List.length b)
+    (join_sorted v) (join_sorted e) (join_sorted b) (join_sorted ki)
+
 let betti_str p k =
   match betti (z_of_int p) k (nat_of_int 7) with
   | None -> "CERT-FAILED"
@@ -79,6 +102,7 @@ let () =
       let za = zs a in
       let z i = z_of_int (List.nth a i) in
       let extra = ref "" in
+      if op = "lk" then emit (dump_link_model !c (sort_set za) ^ " ## " ^ dump_link_spec !k (sort_set za) ^ " ## ") else
       (try
         (match op with
          | "av" -> c := add_vertex !c; k := spec_add_vertex !k
